@@ -111,7 +111,7 @@ CHECKS["C02"] = dict(
 
 CHECKS["C07"] = dict(
     technique="Coq proofs of inverses, of every partial derivative of the cumulative maps and of the ratio node-height transform on every topology (Coquelicot is_derive), of det(triangular) = product of the diagonal for the Laplace determinant, hence report = ln|det J| + interval-run correspondence and autograd-Jacobian comparison on the implementation",
-    text="Theorems in prop/C07.v: inverse-after-forward = identity for cumsum, cumsum-exp, softplus, cumsum-softplus, log, "
+    text="34 theorems in prop/C07.v: inverse-after-forward = identity for cumsum, cumsum-exp, softplus, cumsum-softplus, log, "
          "exp, sigmoid, affine; the diagonal entries of each Jacobian are the true derivatives (softplus' = sigmoid, exp, "
          "1/x, sigmoid(1-sigmoid), chain rule for cumulative maps) and the reported quantities are their logarithms; "
          "cumulative maps are triangular (prefix dependence); for the ratio node-height transform on every topology "
@@ -127,8 +127,10 @@ CHECKS["C07"] = dict(
          "to the code by interval-run correspondence on transform(x), .inv(y), .log_abs_det_jacobian, "
          "TransformedParameter() and ReparameterizedTimeTreeModel(); the property itself (reported = slogdet of the "
          "autograd Jacobian; inv(fwd(x)) = x) is evaluated on the implementation for every case.",
-    note="Trusted: Coq kernel; translator T10; hand-written models; the ratio Jacobian is taken with rows and columns in pre-order (a "
-         "simultaneous reordering by node index does not change |det|: not proved on lists); torch autograd on the implementation side; StickBreaking / "
+    note="Trusted: Coq kernel; translator T10; hand-written models; the ratio Jacobian is taken with rows and columns in pre-order OR "
+         "in node-index order as autograd lays it out (C07_det_simultaneous_permutation: any injective re-indexing of rows and "
+         "columns by the same map leaves the determinant unchanged; C07_ratio_report_is_logabsdet_node_order; "
+         "C07_node_order_entries_are_partial_derivatives); torch autograd on the implementation side; StickBreaking / "
          "ConvexCombination / RescaledRate transforms not covered (non-square or nothing reported); TrilExpDiagonal: "
          "inverse only (it reports no log-det).",
     design="§6 C07")
